@@ -17,8 +17,8 @@ ASSUMPTIONS = ["grammars: extracted (real extract) from an E1(m, n) tree r times
                "LABEL<fanout>(args))"]
 OUTSIDE = ["labels with parentheses or a trailing digit", "grammars from more than two distinct trees"]
 ENCS = ["utf-8", "latin-1", "utf-16"]
-WORDS = ["a", "USA", "Ä", "Haus", "a"]
-POS = ["P", "Q", "P", "Q", "Q"]
+WORDS = ["a", "USA", "Ä", "Haus", "a"] + ["w" + chr(91 + i) for i in range(6, 16)]
+POS = ["P", "Q", "P", "Q", "Q"] + ["T" + chr(59 + i) for i in range(6, 16)]
 MODES = ["raw", "leftright", "optimal", "markov"]
 
 
@@ -233,6 +233,16 @@ def files(m, n, r, mode, fmt, enc, lig, big=False, **kw):
     return ""
 
 
+def wide(k, w, fmt, lig):
+    """one flat rule with k right-hand side elements, one of which (position w) has a second block at the right edge:
+    variables numbered up to k, i.e. with two digits"""
+    n = k + 1
+    kw = {"ip1": 0}
+    for j in range(1, n + 1):
+        kw["lp%d" % j] = 1 if (j == w + 1 or j == n) else 0
+    return files(2, n, 1, 0, fmt, 0, lig, **kw)
+
+
 def cmd(m, n, r, mode, dfmt, enc, lig=False, big=False, **kw):
     """`treetools grammar` with a grammar file as input: the written grammar equals the input grammar"""
     stubs.install()
@@ -294,6 +304,9 @@ def conds(tier):
         cs.append(Cond("cmd-m%d-n%d" % (m, n), "harness.c09:cmd", ps, fixed={"m": m, "n": n},
                        pre=[e1_wf_expr(m, n)] + (["enc == mode % 3 and r == 1 and big == lig"] if q else ["not big or r == 1"]), shard=["mode", "dfmt"],
                        timeout=600 if q else 3000, functions=FUNCS[5:6] + FUNCS[:4]))
+    cs.append(Cond("wide", "harness.c09:wide", [P("k", "int", 9, 13 if q else 15), P("w", "int", 0, 3 if q else 9), P("fmt", "int", 0, 2), P("lig", "bool")],
+                   shard=["fmt", "lig"], timeout=600 if q else 3000, functions=FUNCS[:4],
+                   note="a flat rule with 9-%d right-hand side elements and a wrapping element: variables with two digits" % (12 if q else 14)))
     for n in ([1, 2, 3] if q else [1, 2, 3, 4]):
         cs.append(Cond("strip-n%d" % n, "harness.c09:strip", [P("x%d" % i, "int", 0, len(STRIPALPHA)) for i in range(1, n + 1)] +
                        [P("k", "int", 1, 13 if n < 3 else 4)], fixed={"n": n}, shard=(["x1"] if n >= 3 else []),
